@@ -1,5 +1,8 @@
 #!/usr/bin/env python3
-"""C09, dynamic flavour: regenerate lean/AGV/Model/ValidateDynSchema.lean — the registry dump of the
+"""C09: regenerate lean/AGV/Model/ValidateDynSchema.lean and lean/AGV/Model/ValidateStaticSchemas.lean (the
+three variants of the static harness schema: plain, with `ifdef`, with merged roots; same procedure on
+stream `main`).
+Dynamic flavour: lean/AGV/Model/ValidateDynSchema.lean — the registry dump of the
 harness schema built with async_graphql::dynamic, as a Lean constant (`dynSchema : VSchema`).
 
 The dump is taken from the first case the built harness binary generates for stream `dynamic`
@@ -97,17 +100,12 @@ def lst(xs, sep=", "):
     return "[" + sep.join(xs) + "]"
 
 
-def main():
-    binp = os.path.join(ROOT, "harness", "target", "debug", "c09")
-    with tempfile.TemporaryDirectory() as td:
-        subprocess.run([binp, "--out", td, "--seed", "1", "--n", "1", "--tier", "quick", "--stream", "dynamic"], check=True)
-        line = open(os.path.join(td, "cases.txt")).readline()
-    case = parse(line)
-    assert case[0] == ("atom", "case") and case[-1] == [("atom", "flavour"), ("atom", "dynamic")]
-    vs = case[1]
+def schema_defs(vs, prefix, const, doc):
+    """Lean definitions `<prefix>Types`, `<prefix>Dirs`, `<prefix>Inputs`, `<const> : VSchema` for one dump"""
     assert vs[0] == ("atom", "vschema")
-    sc, dirs, inputs = vs[1], vs[2], vs[3]
+    sc, dirs, inputs, subflag = vs[1], vs[2], vs[3], vs[4]
     assert sc[0] == ("atom", "schema") and dirs[0] == ("atom", "dirs") and inputs[0] == ("atom", "inputs")
+    assert subflag[0] == ("atom", "subflag")
     types = []
     for t in sc[4]:
         assert t[0] == ("atom", "type")
@@ -125,12 +123,45 @@ def main():
     for i in inputs[1:]:
         assert i[0] == ("atom", "input")
         ins.append(f'    {{ name := {q(i[1])}, oneof := {i[2][1]},\n      fields := {lst([argdef(a) for a in i[3:]], NL8)} }}')
+    return f'''def {prefix}Types : List TypeDef := [
+{NL.join(types)}]
+
+def {prefix}Dirs : List DirDef := [
+{NL.join(ds)}]
+
+def {prefix}Inputs : List InputDef := [
+{NL.join(ins)}]
+
+/-- {doc} -/
+def {const} : VSchema :=
+  {{ base := {{ types := {prefix}Types, query := {q(sc[1])}, mutation := {opt(sc[2])}, subscription := {opt(sc[3])} }},
+    dirs := {prefix}Dirs, inputs := {prefix}Inputs, subFlag := {lst([q(x) for x in subflag[1:]])} }}
+'''
+
+
+def write(path, body):
+    old = open(path).read() if os.path.exists(path) else None
+    if old != body:
+        open(path, "w").write(body)
+        print("wrote", path)
+    else:
+        print("unchanged", path)
+
+
+def main():
+    binp = os.path.join(ROOT, "harness", "target", "debug", "c09")
+    with tempfile.TemporaryDirectory() as td:
+        subprocess.run([binp, "--out", td, "--seed", "1", "--n", "1", "--tier", "quick", "--stream", "dynamic"], check=True)
+        line = open(os.path.join(td, "cases.txt")).readline()
+    case = parse(line)
+    assert case[0] == ("atom", "case") and case[-1] == [("atom", "flavour"), ("atom", "dynamic")]
     body = f'''/-
   C09, dynamic flavour — GENERATED by tools/c09_dyn_schema.py from the registry dump of the harness
   schema built with `async_graphql::dynamic` (harness/core/src/c09/dynschema.rs).  Do not edit.
 
   `dynSchema` is what `dump_registry` read back from the REAL registry of that schema (types incl. the
-  introspection types `create_introspection_types` adds, the five system directives, input objects);
+  introspection types `create_introspection_types` adds, the five system directives, input objects,
+  the names of the object types flagged `is_subscription`);
   the judge compares the dump of every case of stream `dynamic` with it (`vschemaEq`).
 -/
 import AGV.Core.Types
@@ -139,20 +170,7 @@ import AGV.Core.VSchema
 namespace AGV.Model.ValidateDynSchema
 open AGV.Core
 
-def dynTypes : List TypeDef := [
-{NL.join(types)}]
-
-def dynDirs : List DirDef := [
-{NL.join(ds)}]
-
-def dynInputs : List InputDef := [
-{NL.join(ins)}]
-
-/-- the registry of the dynamic flavour of the harness schema, as dumped -/
-def dynSchema : VSchema :=
-  {{ base := {{ types := dynTypes, query := {q(sc[1])}, mutation := {opt(sc[2])}, subscription := {opt(sc[3])} }},
-    dirs := dynDirs, inputs := dynInputs }}
-
+{schema_defs(case[1], "dyn", "dynSchema", "the registry of the dynamic flavour of the harness schema, as dumped")}
 def dirDefEq (a b : DirDef) : Bool :=
   a.name == b.name && a.repeatable == b.repeatable && a.locs == b.locs && a.args == b.args
 def inputDefEq (a b : InputDef) : Bool :=
@@ -161,19 +179,59 @@ def listEq {{α}} (eq : α → α → Bool) : List α → List α → Bool
   | [], [] => true
   | x :: xs, y :: ys => eq x y && listEq eq xs ys
   | _, _ => false
-/-- the same description (component by component) -/
+/-- the same description (component by component, the `is_subscription` flags included) -/
 def vschemaEq (a b : VSchema) : Bool :=
   a.base.types == b.base.types && a.base.query == b.base.query && a.base.mutation == b.base.mutation
   && a.base.subscription == b.base.subscription && listEq dirDefEq a.dirs b.dirs && listEq inputDefEq a.inputs b.inputs
+  && a.subFlag == b.subFlag
 
 end AGV.Model.ValidateDynSchema
 '''
-    old = open(OUT).read() if os.path.exists(OUT) else None
-    if old != body:
-        open(OUT, "w").write(body)
-        print("wrote", OUT)
-    else:
-        print("unchanged", OUT)
+    write(OUT, body)
+
+    # ---- the three variants of the STATIC harness schema (stream `main`)
+    with tempfile.TemporaryDirectory() as td:
+        subprocess.run([binp, "--out", td, "--seed", "1", "--n", "400", "--tier", "quick", "--stream", "main"], check=True)
+        lines = open(os.path.join(td, "cases.txt")).read().splitlines()
+    found = {}
+    for line in lines:
+        key = "merged" if '(vschema (schema "MQuery"' in line else ("ifdef" if '(dirdef "ifdef"' in line else "plain")
+        if key not in found:
+            found[key] = parse(line)[1]
+        if len(found) == 3:
+            break
+    assert set(found) == {"plain", "ifdef", "merged"}, sorted(found)
+    sbody = f'''/-
+  C09, static flavour — GENERATED by tools/c09_dyn_schema.py from the registry dumps of the three variants
+  of the static harness schema (harness/core/src/c09/schema.rs).  Do not edit.
+
+  `plainSchema`   roots are plain `#[Object]` / `#[Subscription]` impls
+  `ifdefSchema`   the same, plus a custom field directive called `ifdef`
+  `mergedSchema`  the same field set with merged roots: `MQuery` / `MMutation` are `#[derive(MergedObject)]`
+                  of `#[Object]` parts, `MSubscription` is a `#[derive(MergedSubscription)]` of two
+                  `#[Subscription]` parts — their `MetaType::Object`s (and the `is_subscription` flags in
+                  `subFlag`) are written by derive/src/merged_object.rs / merged_subscription.rs
+  Each is what `dump_registry` read back from the REAL registry; the judge compares the dump of every case
+  of stream `main` with these constants (`isStaticVariant`): a difference is a broken tie.
+-/
+import AGV.Core.Types
+import AGV.Core.VSchema
+import AGV.Model.ValidateDynSchema
+
+namespace AGV.Model.ValidateStaticSchemas
+open AGV.Core
+
+{schema_defs(found["plain"], "plain", "plainSchema", "static harness schema, plain roots, as dumped")}
+{schema_defs(found["ifdef"], "ifdef", "ifdefSchema", "static harness schema with the custom directive `ifdef`, as dumped")}
+{schema_defs(found["merged"], "merged", "mergedSchema", "static harness schema with MergedObject / MergedSubscription roots, as dumped")}
+def staticVariants : List VSchema := [plainSchema, ifdefSchema, mergedSchema]
+
+/-- the description is one of the three dumped variants -/
+def isStaticVariant (S : VSchema) : Bool := staticVariants.any (ValidateDynSchema.vschemaEq S)
+
+end AGV.Model.ValidateStaticSchemas
+'''
+    write(os.path.join(ROOT, "lean", "AGV", "Model", "ValidateStaticSchemas.lean"), sbody)
 
 
 if __name__ == "__main__":
